@@ -76,6 +76,26 @@ def pivotgrowth_rules(chk, cid, prog, p, cfgname):
         from ..run import AnalysisBroken
         raise AnalysisBroken('%sPivotGrowth not found' % p)
     chk.saw(unit=f.unit, func=f.unit + ':' + f.name)
+    # the scan of the U part held inside the supernode (luval[i]) must stay within the rows of the supernode: after a zero pivot a relaxed
+    # supernode can have fewer rows than columns, and the values behind the block were never written (repaired in fd138c9)
+    from ..facts import canon
+    scans = []
+    for lp in f.body.walk():
+        if lp.k == 'For' and any(y.k == 'Index' and strip(y.c[0]).a.get('name') == 'luval' for y in lp.c[3].walk()) \
+                and not any(z.k == 'For' and any(y.k == 'Index' and strip(y.c[0]).a.get('name') == 'luval' for y in z.walk()) for z in lp.c[3].walk()):
+            scans.append(lp)
+    for lp in scans:
+        ctext = canon(lp.c[1], ids=False)
+        inst = '%s:supernode-scan-within-its-rows' % f.name
+        if 'nsupr' in ctext:
+            chk.ok(cid, inst, sample=ctext)
+        else:
+            chk.violate(cid, inst, loc(f, lp), f.name,
+                        'the loop over the part of U stored inside the supernode is bounded by `%s` only; it must also stay below nsupr (a supernode cut short by a '
+                        'zero pivot has fewer rows than columns, and the scan then reads values that were never written)' % ctext, cfgname=cfgname)
+    if not scans:
+        from ..run import AnalysisBroken
+        raise AnalysisBroken('%s: scan of luval[] not found' % f.name)
     n = 0
     n += r7_perm.check_inverse(chk, cid, f, 'inv_perm_c', 'perm_c', cfgname)
     ncols = f.params[0][1]
